@@ -242,7 +242,7 @@ fn replay(ctx: &Ctx, _engine: &str, case: &Value) -> CaseResult {
 pub static C18: PropDef = PropDef {
     id: "C18",
     level: "exploration",
-    rule: "proptest generates a signal mask (subset of 1..64 without KILL, STOP, 32, 33; empty, small, or 20..60 signals) installed with pthread_sigmask on the spawning thread (main or a fresh thread), the harness's SIGPIPE disposition in {ignored (as the Rust runtime sets it), default, handler}, and a spawn form in {Popen::create, Exec::popen, Exec::capture, every stage of a 2..5 stage pipeline, behavioural flood}. Oracle: each helper child reports SigBlk == 0 and SIGPIPE neither ignored nor caught (from /proc/self/status, written to a side file); behavioural form: a child writing forever whose reader is closed after r bytes must be reported as Signaled(SIGPIPE) (it exits with 77 on EPIPE, so a missing reset is a wrong status, never a hang). Non-trivial = mask non-empty or parent disposition `ignored`.",
+    rule: "proptest generates a signal mask (subset of 1..64 without KILL, STOP, 32, 33; empty, small, or 20..60 signals) installed with pthread_sigmask on the spawning thread (main or a fresh thread), the harness's SIGPIPE disposition in {ignored (as the Rust runtime sets it), default, handler}, and a spawn form in {Popen::create, Exec::popen, Exec::capture, every stage of a 2..5 stage pipeline, behavioural flood}. Oracle: each helper child reports SigBlk == 0 and SIGPIPE neither ignored nor caught (from /proc/self/status, written to a side file); behavioural form: a child writing forever whose reader is closed after r bytes must be reported as Signaled(SIGPIPE) (it exits with 77 on EPIPE, so a missing reset is a wrong status, never a hang). Non-trivial = mask non-empty or parent disposition `ignored`. A further spawn form is Popen::create with generated options (setpgid, setuid+setgid, cwd, detached) and the child's stdout and/or stderr on a pseudo-terminal.",
     assumptions: &["the child's own view of its signal state (/proc/self/status) right after exec"],
     engines: "real",
     workers: |_| 16,
